@@ -297,10 +297,18 @@ class GParser:
         if sub["cls"] == "NullStripped":
             # trailing NUL octets are stripped (pad b"\0"); symbolic octets are assumed non-NUL by the layouts that use this rule
             if sub["subcon"]["cls"] != "GreedyBytes": raise Unsupported("NullStripped over non-GreedyBytes")
-            while data and isinstance(data[-1], int) and data[-1] == 0: data.pop()
-            if data and not isinstance(data[-1], int):
-                st.pc.append(data[-1] != 0)
-            return [(OK, st, data, off + ln)]
+            # one path per feasible number of trailing NUL octets (decided against the path condition; nothing is assumed about symbolic octets)
+            # (at most two symbolic NUL octets are followed: the paths multiply over the strings of a list)
+            outs = []; work = [(st, data, 0)]
+            while work:
+                st_, d, k = work.pop()
+                while d and isinstance(d[-1], int) and d[-1] == 0: d = d[:-1]
+                if not d or isinstance(d[-1], int): outs.append((OK, st_, d, off + ln)); continue
+                for st2, b in s.eng.split(st_, SBool(d[-1] != 0), check=True):
+                    if b: outs.append((OK, st2, list(d), off + ln))
+                    elif k >= 2: raise Unsupported("more than two trailing NUL octets possible in a NUL-stripped string")
+                    else: work.append((st2, d[:-1], k + 1))
+            return outs
         if sub["cls"] == "GreedyBytes": return [(OK, st, data, off + ln)]
         raise Unsupported(f"FixedSized over {sub['cls']}")
 
